@@ -336,20 +336,34 @@ def build_line(rng, tag, word, args, variant):
     w = word.lower() if variant['case'] == 'lower' else \
         (rand_case(rng, word) if variant['case'] == 'mixed' else word)
     line = tag + b' ' + w
+    pos = [0]
+
+    def kind_here():
+        """variant['kinds'] is one spelling for every position, or a tuple with
+        one spelling per spelled position (mixed spellings)"""
+        ks = variant['kinds']
+        if isinstance(ks, str):
+            return ks
+        k = ks[pos[0] % len(ks)]
+        pos[0] += 1
+        return k
     for kind, v in args:
         line += b' ' * variant['spaces']
         if kind == 'r':
             line += v
-        elif kind == 'lit':
-            line += (b'{%d+}\r\n' if variant['kinds'] == 'litplus' else b'{%d}\r\n') % len(v) + v
+        elif kind == 'lit':     # a message literal: only the two literal forms exist
+            k = kind_here()
+            line += (b'{%d+}\r\n' if k in ('litplus', 'quoted') else b'{%d}\r\n') % len(v) + v
         elif kind == 'fl':
             parts = []
             for x in v:
-                sp = [s for s in spellings(x) if s[0] == variant['kinds']] or spellings(x)[:1]
+                k = kind_here()
+                sp = [s for s in spellings(x) if s[0] == k] or spellings(x)[:1]
                 parts.append(sp[0][1] + (sp[0][2] or b''))
             line += b'(' + b' '.join(parts) + b')]'
         else:
-            sp = [s for s in spellings(v) if s[0] == variant['kinds']]
+            k = kind_here()
+            sp = [s for s in spellings(v) if s[0] == k]
             if not sp:
                 return None
             line += sp[0][1] + (sp[0][2] or b'')
@@ -392,7 +406,7 @@ def e2e_monitor(ctx) -> None:
     rng = ctx.rng
     nruns = 0
     ngroups = 0
-    budget = ctx.scale(1000, 8000)
+    budget = ctx.scale(1600, 9000)
     combos = []
     for tpl in TEMPLATES:
         tname, setup, word, args, probes = tpl
@@ -428,6 +442,17 @@ def e2e_monitor(ctx) -> None:
                      dict(case='mixed', spaces=2, trail=0, kinds='litplus'),
                      dict(case='upper', spaces=3, trail=2, kinds='lit'),
                      dict(case='mixed', spaces=1, trail=1, kinds='atom')]
+        # mixed spellings: every combination of the four spellings over the
+        # spelled argument positions (sync-then-nonsync, nonsync-then-sync, ...)
+        npos = sum(len(x) if kind == 'fl' else 1 for kind, x in cargs if kind in ('s', 'lit', 'fl'))
+        if npos >= 2:
+            import itertools
+            four = ('atom', 'quoted', 'lit', 'litplus')
+            mixed = [c for c in itertools.product(four, repeat=npos) if len(set(c)) > 1]
+            if len(mixed) > 14:      # three positions: all literal-kind mixes + a seeded sample
+                lits = [c for c in mixed if set(c) <= {'lit', 'litplus'}]
+                mixed = lits + rng.sample([c for c in mixed if c not in lits], 14 - len(lits) if len(lits) < 14 else 0)
+            variants += [dict(case='upper', spaces=1, trail=0, kinds=c) for c in mixed]
         results = []
         for var in variants:
             line = build_line(rng, b'T1', word, cargs, var)
@@ -447,7 +472,7 @@ def e2e_monitor(ctx) -> None:
                 clause = 'command_spelling'
                 obs = {'kind': 'sibling_differs', 'template': tname}
                 if isinstance(v, (str, bytes)) and ('}' in v if isinstance(v, str) else b'}' in v) \
-                        and 'atom' in (var['kinds'], ref[0]['kinds']) \
+                        and ('atom' in var['kinds'] or 'atom' in ref[0]['kinds']) \
                         and (b'TAG BAD' in b''.join(res[0]) or b'TAG BAD' in b''.join(ref[2][0])):
                     clause, obs = 'astring_spelling', {'kind': 'atom_rbrace'}   # known finding C18-F3
                 ctx.failure(clause,
@@ -459,7 +484,7 @@ def e2e_monitor(ctx) -> None:
         # reported names decode to the created name (reference decoder)
         if tname not in ('create', 'subscribe', 'append', 'copy'):
             continue
-        for var, line, res in [r for r in results if r[0]['kinds'] == 'lit'][:1]:
+        for var, line, res in [r for r in results if r[0]['kinds'] == 'lit'][:1]:   # all-{n} sibling
             for key, kind in (('list', b'LIST'), ('lsub', b'LSUB'), ('status', b'STATUS')):
                 raw = res[4].get(key)
                 if raw is None:
@@ -475,6 +500,101 @@ def e2e_monitor(ctx) -> None:
                                 {'template': tname, 'name': [ord(c) for c in name], 'raw': raw.hex()},
                                 {'kind': 'reported_name', 'response': kind.decode()})
     ctx.extra['e2e'] = {'sibling_runs': nruns, 'groups': ngroups}
+
+
+# ------------------------------- a disagreeing stream, replayed on a live server
+def ref_parse_stream(stream: bytes):
+    """split a client stream into (tag, word, [argument values], rest of the
+    stream) following RFC 3501 / RFC 7888 only (independent of pymap and of the
+    model); None when the stream is not one complete well-formed command"""
+    m = re.match(rb'([^ \r\n(){%*"\\]+) +([A-Za-z]+)', stream)
+    if not m:
+        return None
+    tag, word = m.group(1), m.group(2)
+    pos = m.end()
+    vals = []
+    while True:
+        k = pos
+        while stream[k:k + 1] == b' ':
+            k += 1
+        if stream[k:k + 2] == b'\r\n':
+            return tag, word, vals, stream[k + 2:]
+        if stream[k:k + 1] == b'\n':
+            return tag, word, vals, stream[k + 1:]
+        if k == pos or k >= len(stream):
+            return None
+        pos = k
+        c = stream[pos:pos + 1]
+        if c == b'"':
+            mm = re.compile(rb'"((?:[^"\\\r\n]|\\["\\])*)"').match(stream, pos)
+            if not mm:
+                return None
+            vals.append(re.sub(rb'\\(.)', rb'\1', mm.group(1)))
+            pos = mm.end()
+        elif c == b'{':
+            mm = re.compile(rb'\{(\d{1,6})\+?\}\r\n').match(stream, pos)
+            if not mm or len(stream) < mm.end() + int(mm.group(1)):
+                return None
+            n = int(mm.group(1))
+            vals.append(stream[mm.end():mm.end() + n])
+            pos = mm.end() + n
+        else:
+            mm = re.compile(rb'[^ \r\n(){%*"\\\x00-\x1f\x7f-\xff]+').match(stream, pos)
+            if not mm:
+                return None
+            vals.append(mm.group(0))
+            pos = mm.end()
+
+
+async def _run_stream(stream: bytes, login: bool):
+    from ..pymap_env import DictEnv
+    env = await DictEnv().start()
+    conn = await env.connect()
+    if login:
+        await conn.send(b'l0 LOGIN testuser testpass\r\n')
+    out = await conn.send(stream)
+    closed = conn.closed
+    await conn.send_eof()
+    return out, closed
+
+
+def e2e_from_stream(ctx, stream: bytes) -> bool:
+    """the failing-input search for a read_command disagreement: send the
+    stream to a live server next to its all-quoted sibling (same tag, word
+    and argument values); different answers = the property fails on the server"""
+    from ..pymap_env import run
+    from .C18_strings import spellings
+    parsed = ref_parse_stream(stream)
+    if parsed is None:
+        return False
+    tag, word, vals, rest = parsed
+    if word.upper() not in MODELLED or len(vals) != MODELLED[word.upper()]:
+        return False
+    sib = tag + b' ' + word
+    for v in vals:
+        sp = dict((s[0], s) for s in spellings(v))
+        s = sp.get('quoted') or sp.get('lit')
+        if s is None:
+            return False
+        sib += b' ' + s[1] + (s[2] or b'')
+    sib += b'\r\n' + rest
+    if sib == stream:
+        return False
+    login = word.upper() not in (b'LOGIN', b'STARTTLS')
+    try:
+        a = run(_run_stream(stream, login), timeout=20)
+        b = run(_run_stream(sib, login), timeout=20)
+    except Exception as exc:
+        a, b = ('<no answer: %s>' % type(exc).__name__, None), ('', None)
+    ca, cb = canon(a[0], tag) if isinstance(a[0], bytes) else a[0], \
+        canon(b[0], tag) if isinstance(b[0], bytes) else b[0]
+    if (ca, a[1]) != (cb, b[1]):
+        ctx.failure('command_spelling',
+                    f'{stream!r} answered {ca!r}, its all-quoted sibling {sib!r} answered {cb!r}',
+                    {'template': 'stream', 'stream': stream.hex(), 'sibling': sib.hex()},
+                    {'kind': 'sibling_differs', 'template': 'stream'})
+        return True
+    return False
 
 
 # --------------------------------------------------------------------- section
@@ -561,8 +681,11 @@ def section(ctx) -> None:
         return cr, cc, keep_r, keep_c
     cr, cc, keep_r, keep_c = run(corr(), timeout=600)
     ctx.sample({'stream': keep_r[len(keep_r) // 2].decode('latin-1')})
-    for i in ctx.run_cases('read_command', HEADER, 'bytes * option (command * bytes * N)', cr,
-                           'chk_read', **SH)[:5]:
+    bad = ctx.run_cases('read_command', HEADER, 'bytes * option (command * bytes * N)', cr,
+                        'chk_read', **SH)
+    for i in bad[:40]:          # failing-input search first: the stream on a live server
+        e2e_from_stream(ctx, keep_r[i])
+    for i in bad[:5]:
         ctx.disagreement('read_command', {'stream': keep_r[i].hex()})
     for i in ctx.run_cases('commands_parse', HEADER, 'list bytes * bytes * xres command', cc,
                            'chk_command', **SH)[:5]:
@@ -575,6 +698,10 @@ def section(ctx) -> None:
 
 def replay(ctx, obj) -> bool:
     from ..pymap_env import run
+    if obj.get('clause') == 'command_spelling' and obj.get('template') == 'stream':
+        if not e2e_from_stream(ctx, bytes.fromhex(obj['stream'])):
+            print('stream and its all-quoted sibling are answered alike')
+        return True
     if obj.get('clause') == 'command_spelling':
         name = 'Foo'
         v = obj.get('value', '')
